@@ -396,6 +396,15 @@ def check_positions(chk, tus, it, vts):
             good = [p for p in paths if p.ret == 1]
             ok = len(good) == 1 and len(recorded) >= 1 and recorded[-1][0] == vts[tname] and \
                 isinstance(recorded[-1][1], dict) and recorded[-1][1].get(field) == tok
+            if not ok:
+                # not one path through wasmCWriteLiteral for every immediate (e.g. a shortcut for some values): decide the emitted text
+                # for each boundary bit pattern instead - literal written by wasmCWriteLiteral with exactly that value, or a spelled
+                # constant whose value in the slot type has exactly these bits
+                bad = concrete_const_family(it, recorded, enc, tname, tag, field, vts)
+                chk.expect(not bad, 'R07.6', '%s.const:function-body' % tname,
+                           'the %s.const case of wasmCWriteFunctionCode does not pass every immediate to wasmCWriteLiteral, and %s'
+                           % (tname, bad), 'wasmCWriteFunctionCode/%s.const' % tname)
+                continue
             chk.expect(ok, 'R07.6', '%s.const:function-body' % tname,
                        'the %s.const case of wasmCWriteFunctionCode does not render the decoded immediate through '
                        'wasmCWriteLiteral: recorded %r' % (tname, recorded), 'wasmCWriteFunctionCode/%s.const' % tname)
@@ -425,6 +434,83 @@ def check_positions(chk, tus, it, vts):
         chk.expect(found, 'R07.6', fn + ':uses-constant-expr',
                    '%s does not render its %s expression through wasmCWriteConstantExpr' % (fn, member), fn,
                    astdb.loc_str(f))
+
+
+def boundary_patterns(tname):
+    W = 32 if tname.endswith('32') else 64
+    top = 1 << (W - 1)
+    pats = [0, 1, top, top - 1, (1 << W) - 1, top | 1]
+    if tname[0] == 'f':
+        _W, eb, sb_, _d = FLOAT_FMT[tname]
+        expmask = ((1 << eb) - 1) << sb_
+        pats += [expmask, expmask | top, expmask | 1, expmask | top | 1, expmask | (1 << (sb_ - 1)), expmask | top | (1 << (sb_ - 1)),
+                 1 << sb_, (1 << sb_) - 1, expmask - 1, (expmask - 1) | top, ((1 << (eb - 1)) - 1) << sb_]
+    return sorted(set(pats))
+
+
+def c_constant_bits(text, tname):
+    """bit pattern that the C constant `text` has after conversion to the slot type of tname, or None if the form is not recognised"""
+    import struct
+    W = 32 if tname.endswith('32') else 64
+    t = text.strip()
+    while t.startswith('(') and t.endswith(')'):
+        t = t[1:-1].strip()
+    m = re.fullmatch(r'W2C2_LL\((.*)\)', t)
+    if m:
+        t = m.group(1).strip()
+    neg = False
+    if t.startswith('-'):
+        neg, t = True, t[1:].strip()
+    mi = re.fullmatch(r'(0[xX][0-9a-fA-F]+|\d+)([uUlL]*)', t)
+    if mi:
+        v = int(mi.group(1), 0)
+        v = -v if neg else v
+        if tname[0] == 'i':
+            return v & ((1 << W) - 1)
+        f = float(v)        # integer constant converted to the floating slot: -0 (integer) is +0.0
+        return struct.unpack('<I', struct.pack('<f', f))[0] if W == 32 else struct.unpack('<Q', struct.pack('<d', f))[0]
+    mf = re.fullmatch(r'((?:\d+\.\d*|\.\d+|\d+)(?:[eE][-+]?\d+)?)([fFlL]?)', t)
+    if mf and tname[0] == 'f':
+        f = float(mf.group(1))
+        f = -f if neg else f
+        try:
+            return struct.unpack('<I', struct.pack('<f', f))[0] if W == 32 else struct.unpack('<Q', struct.pack('<d', f))[0]
+        except OverflowError:
+            return None
+    return None
+
+
+def concrete_const_family(it, recorded, enc, tname, tag, field, vts):
+    """first boundary bit pattern whose function-body rendering is neither delegated to wasmCWriteLiteral nor a recognisable C
+    constant with the same bits; None when all patterns are fine"""
+    old = getattr(it, 'union_endian', None)
+    it.union_endian = 'little'
+    try:
+        for bits in boundary_patterns(tname):
+            del recorded[:]
+            try:
+                paths = it.explore(dispatch_setup(it, [('byte', enc), (tag, bits), ('byte', 0x0B)], ['i32']))
+            except pe.PEError as e:
+                raise AnalysisBroken('%s.const with immediate 0x%X: %s' % (tname, bits, e))
+            good = [p for p in paths if p.ret == 1]
+            if len(good) != 1:
+                raise AnalysisBroken('%s.const with immediate 0x%X: %d successful paths' % (tname, bits, len(good)))
+            if recorded:
+                v = recorded[-1][1]
+                got = v.get(field) if isinstance(v, dict) else None
+                if recorded[-1][0] == vts[tname] and isinstance(got, int) and got & ((1 << (32 if tname.endswith('32') else 64)) - 1) == bits:
+                    continue
+                return 'for the immediate 0x%X wasmCWriteLiteral receives %r' % (bits, recorded[-1])
+            text = good[0].state['sb']['_text'].render()
+            m = re.search(r'=\s*([^;=]+);', text)
+            val = c_constant_bits(m.group(1), tname) if m else None
+            if val is None:
+                raise AnalysisBroken('%s.const with immediate 0x%X emits %r: constant form not recognised' % (tname, bits, text))
+            if val != bits:
+                return 'the immediate 0x%X is written as %r, which denotes 0x%X in the %s slot' % (bits, text.strip(), val, tname)
+    finally:
+        it.union_endian = old
+    return None
 
 
 def dispatch_setup(it, tokens, stack, pretty=0, multiple=0, ignore=0, labels=None, module=None, function=None):
